@@ -659,7 +659,11 @@ func (w *mgrWorld) use(caller, useIdx int, u usePlan, mustSucceed bool) (ok bool
 		}
 		for j := range got {
 			if got[j] != mgrByte(caller, useIdx, j) {
-				w.fail("C15.stale_bytes", w.staleTags(st), "caller %d use %d: the response read on stream %d does not belong to this use (byte %d differs): bytes of an earlier use or of another caller", caller, useIdx, st.StreamID(), j)
+				tags := w.staleTags(st)
+				if tags == nil {
+					tags = w.lostTags(st)
+				}
+				w.fail("C15.stale_bytes", tags, "caller %d use %d: the response read on stream %d does not belong to this use (byte %d differs): bytes of an earlier use or of another caller", caller, useIdx, st.StreamID(), j)
 				release()
 				_ = st.Close() // a caller that gets garbage gives the stream up
 				return false
@@ -702,6 +706,19 @@ func (w *mgrWorld) use(caller, useIdx int, u usePlan, mustSucceed bool) (ok bool
 func (w *mgrWorld) staleTags(st *Stream) map[string]string {
 	if w.late[st] {
 		return map[string]string{"bytes_in_flight_at_putback": "yes"}
+	}
+	return nil
+}
+
+// lostTags tells garbage produced by the teardown of the stream's own session (finding F-TEARDOWN: the peer's
+// session close recycled the buffers it had just published) from stale bytes on a healthy session: the loss of the
+// session reaches this side within 100 ms.
+func (w *mgrWorld) lostTags(st *Stream) map[string]string {
+	for i := 0; i < 100; i++ {
+		if st.session.shutdown == 1 {
+			return map[string]string{"own_session_lost": "yes"}
+		}
+		simrt.Sleep(time.Millisecond)
 	}
 	return nil
 }
